@@ -72,13 +72,27 @@ def gen(tier, rng, harness=None, driver=None):
         if is_valid_llvm(toks):
             lines.append("!num.check " + s)
         ents = [rng.choice("GAIFD") + ":" + rng.choice("nu") for _ in range(rng.randint(1, 6))]
+        # entities of OTHER namespaces (attribute group, metadata, type, comdat, named metadata definitions, each with an ID / name of its own) written between them
+        if rng.random() < 0.4:
+            for _ in range(rng.randint(1, 3)):
+                ents.insert(rng.randint(0, len(ents)), "X:" + rng.choice("amtcn"))
         lines.append("num.mod " + " ".join(ents))
         lines.append("num.modapi " + " ".join(ents))
         lines.append("!num.modok " + " ".join(ents))
+    # systematic (every run): every kind of unnamed global entity before and after every kind of foreign entity
+    for g in ("G:u", "A:u", "I:u", "F:u", "D:u"):
+        for x in "amtcn":
+            for ents in (["X:" + x, g, g], [g, "X:" + x, g], ["G:u", "X:" + x, g, "X:" + x, "F:u"]):
+                lines.append("num.mod " + " ".join(ents))
+                lines.append("!num.modok " + " ".join(ents))
     if tier == "thorough":
         forms = ["P:i", "P:n", "B:i", "B:n", "V:n", "S", "C", "R", "IV"]
         for k in range(1, 6):
             for ents in itertools.product(["G:u", "A:u", "I:u", "F:u", "D:u", "G:n", "D:n"], repeat=k):
+                lines.append("num.mod " + " ".join(ents))
+                lines.append("!num.modok " + " ".join(ents))
+        for k in range(1, 4):
+            for ents in itertools.product(["G:u", "A:u", "F:u", "D:u", "X:a", "X:m", "X:t", "X:c", "X:n"], repeat=k):
                 lines.append("num.mod " + " ".join(ents))
                 lines.append("!num.modok " + " ".join(ents))
         # all small function shapes with explicit-or-implicit LLVM numbering
